@@ -237,9 +237,27 @@ class Single(explore.System):
     SECOND_PEER_KINDS = ["CONNECT", "CLOSE", "HEARTBEAT", "REG_A", "OFF_A", "CLOSE_ACK"]
 
     def events(self):
-        return list(self.KINDS) + [k + "@2" for k in self.SECOND_PEER_KINDS]
+        return list(self.KINDS) + [k + "@2" for k in self.SECOND_PEER_KINDS] + ["ENDPOINT_REPLACED"]
 
     def step(self, kind):
+        if kind == "ENDPOINT_REPLACED":
+            # the handler object is given to a new datagram endpoint while the old one is still open: asyncio calls
+            # connection_made(new) and, once the old endpoint has closed, connection_lost(None).  Not a datagram: nothing is sent, the
+            # link counts as closed (documented in connection_lost), and every later datagram is answered through the new endpoint.
+            viol = list(self.pending)
+            self.pending = []
+            new_tr = RecDatagramTransport()
+            try:
+                self.impl.connection_made(new_tr)
+                self.impl.connection_lost(None)
+            except Exception as e:  # noqa: BLE001
+                viol.append(("exception:" + exc_sig(e), {"event": kind, "exc": repr(e)}))
+            if self.tr.sent and False:
+                pass
+            self.tr = new_tr
+            self.m_connected = self.impl.hstrp_connected  # (statement silent: follow the implementation)
+            self.obs = (kind, (), None, None)
+            return viol
         peer = PEER
         if kind.endswith("@2"):
             kind = kind[:-2]
@@ -322,7 +340,7 @@ class Single(explore.System):
 
     def key(self):
         return (self.impl.hstrp_connected, self.impl.sn, registry_view(self.impl), self.m_connected, tuple(sorted(self.m_registry.items())),
-                repr(canon(self.impl, skip=IMPL_SKIP)))
+                repr(canon(self.impl, skip=IMPL_SKIP)), self.impl.transport is self.tr)
 
 
 # ------------------------------------------------------------------------------------------------
